@@ -157,24 +157,35 @@ func (r *fileRenderer) fieldLine(d int, ind string, labelled bool) {
 	r.w.put(";\n")
 }
 
+func (r *fileRenderer) messageBody(d int, in2 string) {
+	dl := &r.f.Decls[d-1]
+	r.optionStmts(d, dl.Opts, in2)
+	if r.f.X {
+		r.rangesX(dl, in2)
+	} else if r.f.Syntax != "proto3" {
+		r.w.put(in2 + "extensions 1000 to 1999;\n")
+	}
+	for _, c := range r.kids[d] {
+		r.decl(c, in2)
+	}
+}
+
 func (r *fileRenderer) decl(d int, ind string) {
 	dl := &r.f.Decls[d-1]
 	in2 := ind + "  "
 	switch dl.Kind {
 	case "message":
+		if r.f.X && dl.Grp {
+			return // the message of a group: rendered by the group's field declaration
+		}
 		r.w.put(ind + "message " + dl.Name + " {\n")
-		r.optionStmts(d, dl.Opts, in2)
-		if r.f.X {
-			r.rangesX(dl, in2)
-		} else if r.f.Syntax != "proto3" {
-			r.w.put(in2 + "extensions 1000 to 1999;\n")
-		}
-		for _, c := range r.kids[d] {
-			r.decl(c, in2)
-		}
+		r.messageBody(d, in2)
 		r.w.put(ind + "}\n")
 	case "enum":
 		r.w.put(ind + "enum " + dl.Name + " {\n")
+		if r.f.X && dl.Alias {
+			r.w.put(in2 + "option allow_alias = true;\n")
+		}
 		r.optionStmts(d, dl.Opts, in2)
 		n := 0
 		for _, c := range r.kids[d] {
@@ -196,6 +207,10 @@ func (r *fileRenderer) decl(d int, ind string) {
 		}
 		r.w.put(ind + "}\n")
 	case "field":
+		if r.f.X && dl.Gof > 0 {
+			r.groupX(d, ind)
+			return
+		}
 		r.fieldLine(d, ind, true)
 	case "ext":
 		r.w.put(ind + "extend ")
